@@ -236,6 +236,33 @@ def check(ctx, text, delays, expect_ok, options, tags, n, rng, k):
         except mexpr.Undefined:
             continue
         ctx.monitor("delay_argument_pairs", len(exp))
+        # the model object's own delay_arguments (expression, duration) must say the same as the function
+        try:
+            import casadi as ca
+            syms, vals = [model.time], [ca.DM(pt["time"])]
+            for lst in ("states", "der_states", "alg_states", "inputs", "parameters", "constants"):
+                for v in getattr(model, lst):
+                    syms.append(v.symbol)
+                    vals.append(ca.DM(np.asarray(pt[v.symbol.name()], dtype=float)))
+            got2 = []
+            for arg in model.delay_arguments:
+                f = ca.Function("d", syms, [ca.MX(arg.expr), ca.MX(arg.duration)], {"allow_free": False})
+                o = f.call(vals)
+                exv, duv = np.array(o[0], dtype=float).reshape(-1), np.array(o[1], dtype=float).reshape(-1)
+                for j in range(exv.size):
+                    got2.append((float(exv[j]), float(duv[0] if duv.size == 1 else duv[j])))
+            ctx.monitor("delay_argument_objects_compared", len(got2))
+            same = len(got2) == len(exp) and all(
+                abs(a[0] - b[0]) <= 1e-9 * max(1, abs(a[0])) and abs(a[1] - b[1]) <= 1e-9 * max(1, abs(a[1]))
+                for a, b in zip(sorted(got2), sorted(exp)))
+        except Exception as e:
+            ctx.violation("C22:delay-arguments-attribute-unusable:%s" % type(e).__name__,
+                          "model.delay_arguments of the %s could not be evaluated: %r\n%s" % (type(model).__name__, e, text), case)
+            return
+        if not same:
+            ctx.violation("C22:delay-arguments-attribute-mismatch:%s" % type(model).__name__,
+                          "model.delay_arguments of the %s are %s, expected %s\n%s" % (type(model).__name__, sorted(got2), sorted(exp), text), case)
+            return
         if len(got) != len(exp) or not all(
                 abs(a[0] - b[0]) <= 1e-9 * max(1, abs(a[0])) and abs(a[1] - b[1]) <= 1e-9 * max(1, abs(a[1]))
                 for a, b in zip(sorted(got), sorted(exp))):
